@@ -84,7 +84,10 @@ def race_case(base, k, nbids, size):
     readers = [ctx.Process(target=_reader, args=(archdir, bids, stop, q)) for _ in range(2)]
     ups = [ctx.Process(target=_uploader, args=(archdir, a, c, barrier, bids)) for a, c in pls]
     for p in readers + ups: p.start()
-    for p in ups: p.join(120)
+    for p in ups: p.join(300)
+    if any(p.is_alive() for p in ups):
+        for p in ups + readers: p.kill()
+        raise RuntimeError('uploaders did not finish within 300 s (machine overloaded?)')
     time.sleep(0.05); stop.set()
     res = [q.get(timeout=60) for _ in readers]
     for p in readers: p.join(30)
